@@ -974,11 +974,11 @@ def _check(ctx, cases):
 def run(ctx):
     _QUICK[0] = bool(ctx.quick)
     cases = _load_corpus()
-    for _ in range(ctx.n(6, 50)):
+    for _ in range(ctx.n(6, 40)):
         cases.append(_gen_case(ctx.rng, ctx.quick, modelled=True))
-    for _ in range(ctx.n(2, 30)):
+    for _ in range(ctx.n(2, 22)):
         cases.append(_gen_case(ctx.rng, ctx.quick, modelled=False))
-    for _ in range(ctx.n(4, 30)):
+    for _ in range(ctx.n(4, 22)):
         cases.append(_gen_default_case(ctx.rng))
     for _ in range(ctx.n(3, 24)):
         c = _gen_reset_case(ctx.rng)
